@@ -1,4 +1,5 @@
 import HG.Lemmas.Cache
+import HG.Lemmas.RunCached
 /-! # C09 — the caching layer
 
 `InMemoryCache` is a correct bounded LRU refinement of a map; `DiskCache.get` never deserialises
@@ -783,5 +784,309 @@ example (env : KeyEnv) (hdh : env.defHash fEx = env.defHash gEx) (e : AL Val) :
     simp only [keyOfCurrent, identOf, hdh]; rfl
   rw [this, Lru.get_snd]
   simp [Lru.run, Lru.step, Lru.set, Lru.empty, AL.has, AL.get?, AL.put]
+
+/-! ## 8. the cache threaded through a whole run (sync runner)
+
+`stepSyncCached` / `runLoopCached` / `runGraphCached` / `runsCached` (`HG/Model/RunCached.lean`) are the
+sync superstep, loop, run and a sequence of runs with ONE cache threaded through every node execution
+(`execCached`), through the steps, and across runs. Vocabulary (defined in `HG/Lemmas/RunCached.lean`):
+
+* `GP g nd i` — the executions a run of `g` makes: `nd ∈ g.nodes`, and `i` has `nd`'s input names as keys;
+* `execPlain sem gi` — the executor of function nodes and gates (independent of state and span);
+* `PlainCacheable g` — every cacheable node of `g` is a function node or a gate (a graph node is never
+  cacheable; a cacheable *interrupt* node is outside these theorems: its executor reads the run state);
+* `CacheOK P env exec` — on the cacheable `P`-executions: same identity and parameter-level arguments ⇒
+  same outcome (`ExecRespectsKey`), only gates assign decisions (`GateOnlyDec`), no output is named
+  `__routing_decision__` (`NoInternalKey`). For `execPlain` the last two follow from the graph
+  (`cacheOK_plain`); the first is the contract of `definition_hash`;
+* `NoNoneDec P exec` — no cacheable `P`-execution assigns the decision `None`;
+* `CallsInj env P gi calls` — the hash has no collision with the key of any invocation in `calls` ("hash
+  injectivity on the keys that occur"; implied by global injectivity, `callsInj_of_injective`);
+* `CacheInv P env exec cache` — `cache` is well formed (`Lru.WF`) and sound for the `P`-executions
+  (`CacheSoundOn`, implied by `CacheSound`);
+* `callsOf log` — the function invocations of a log; `eraseCache log` — the log with invocations and
+  `CacheHit` markers dropped and the `cached` flag of `NodeEnd` cleared; `eraseRoute` — `RouteDecision`
+  events dropped too; `routingOf log` — `(gate, decision)` of the `RouteDecision` events; `startsOf log` —
+  `(node, span)` of the `NodeStart` events (which node ran, in which superstep, in which order). -/
+
+/-- the empty cache (any capacity) is sound, for every executor -/
+theorem cacheSound_empty (env : KeyEnv) (exec : NodeD → AL Val → NodeOut) (ms : Option Nat) :
+    CacheSound env exec (Lru.empty ms) := by
+  intro nd inputs entry _ h
+  simp [Lru.empty] at h
+
+/-- … and satisfies the invariant the run theorems start from (well formed and sound) -/
+theorem cacheInv_empty (P : NodeD → AL Val → Prop) (env : KeyEnv) (exec : NodeD → AL Val → NodeOut)
+    (ms : Option Nat) : CacheInv P env exec (Lru.empty ms) :=
+  HG.Cache.cacheInv_empty P env exec ms
+
+/-- a sound (`CacheSound`), well-formed cache satisfies the invariant -/
+theorem cacheInv_of_sound (P : NodeD → AL Val → Prop) (env : KeyEnv) (exec : NodeD → AL Val → NodeOut)
+    (cache : Lru (AL Val)) (hwf : cache.WF) (hs : CacheSound env exec cache) : CacheInv P env exec cache :=
+  ⟨hwf, hs.on P⟩
+
+/-
+FULL STATEMENT (false of the code) — `cached_run_transparent` WITHOUT the hypothesis `NoNoneDec`:
+    routingOf (runGraphCached … cache).1.log = routingOf (runGraph …).log
+A cacheable route gate without fallback whose function returns `None`: the executor assigns the decision
+`None` and the superstep announces `RouteDecision(None)`; `store_in_cache` stores no `None` decision and
+`restore_routing_decision` assigns none, so a hit announces nothing (or a stale `END`).
+Counterexample: `none_decision_run_witness`. Two theorems are proved instead:
+* `cached_run_transparent` — with `NoNoneDec`: everything, `RouteDecision` events included;
+* `cached_run_transparent_partial` — without it: status, values, error, pause, warnings, which nodes run
+  in which superstep, and the log modulo `RouteDecision` events. What is missing is exactly the
+  `RouteDecision` events (and `routing_decisions` entries) of cached `None` decisions.
+-/
+
+/-- C09 — WHOLE-RUN CACHE TRANSPARENCY (sync runner). From any cache satisfying the invariant — in
+particular the empty cache of any capacity (`cacheInv_empty`), or the cache left by earlier runs — and
+with no cacheable `None` decision, the cached run returns the same status, values, error (raised or
+not), pause, warnings and routing decisions as the uncached run; the logs are equal once invocations
+and cache markers are erased; the final cache again satisfies the invariant. Bounded LRU eviction is
+covered (any `maxSize`): soundness speaks of the entries present. -/
+theorem cached_run_transparent (env : KeyEnv) (nested : Nested) (sem : Sem) (gi : Nat) (g : GraphD)
+    (values : AL Val) (cfg : RunCfg) (span : Span) (parent : Option Span) (cache : Lru (AL Val))
+    (hplain : PlainCacheable g) (hok : CacheOK (GP g) env (execPlain sem gi))
+    (hnn : NoNoneDec (GP g) (execPlain sem gi))
+    (hinj : CallsInj env (GP g) gi (callsOf (runGraph nested sem .sync gi g values cfg span parent).log))
+    (hinv : CacheInv (GP g) env (execPlain sem gi) cache) :
+    let u := runGraph nested sem .sync gi g values cfg span parent
+    let r := runGraphCached env nested sem gi g values cfg span parent cache
+    r.1.status = u.status ∧ r.1.values = u.values ∧ r.1.error = u.error ∧ r.1.raised = u.raised ∧
+    r.1.pause = u.pause ∧ r.1.warnings = u.warnings ∧
+    routingOf r.1.log = routingOf u.log ∧ eraseCache r.1.log = eraseCache u.log ∧
+    CacheInv (GP g) env (execPlain sem gi) r.2 := by
+  intro u r
+  obtain ⟨h, hc⟩ := runGraphCached_sim env (execPlain sem gi) nested sem gi g values cfg span parent cache
+    hok (execIs_plain nested sem gi g hplain) hnn hinv hinj
+  exact ⟨h.status, h.values, h.error, h.raised, h.pause, h.warnings, h.log.routing, h.log.1, hc⟩
+
+/-- C09 — whole-run transparency WITHOUT the hypothesis on `None` decisions (node names distinct): the
+cached run returns the same status, values, error, pause and warnings; the same nodes run, in the same
+supersteps, in the same order (`startsOf`); the logs are equal once invocations, cache markers and
+`RouteDecision` events are erased; the final cache satisfies the invariant. (Internally the two runs'
+states are related, not equal: where the uncached run holds the decision `None`, or nothing, the cached
+run may hold nothing, or a stale `END` — `StateSim`; the scheduler cannot tell these apart.) -/
+theorem cached_run_transparent_partial (env : KeyEnv) (nested : Nested) (sem : Sem) (gi : Nat) (g : GraphD)
+    (values : AL Val) (cfg : RunCfg) (span : Span) (parent : Option Span) (cache : Lru (AL Val))
+    (hplain : PlainCacheable g) (hnames : (g.nodes.map (·.name)).Nodup)
+    (hok : CacheOK (GP g) env (execPlain sem gi))
+    (hinj : CallsInj env (GP g) gi (callsOf (runGraph nested sem .sync gi g values cfg span parent).log))
+    (hinv : CacheInv (GP g) env (execPlain sem gi) cache) :
+    let u := runGraph nested sem .sync gi g values cfg span parent
+    let r := runGraphCached env nested sem gi g values cfg span parent cache
+    r.1.status = u.status ∧ r.1.values = u.values ∧ r.1.error = u.error ∧ r.1.raised = u.raised ∧
+    r.1.pause = u.pause ∧ r.1.warnings = u.warnings ∧
+    startsOf r.1.log = startsOf u.log ∧
+    eraseRoute (eraseCache r.1.log) = eraseRoute (eraseCache u.log) ∧
+    CacheInv (GP g) env (execPlain sem gi) r.2 := by
+  intro u r
+  obtain ⟨h, hc⟩ := runGraphCached_simB env (execPlain sem gi) nested sem gi g values cfg span parent cache
+    hnames hok (execIs_plain nested sem gi g hplain) hinv hinj
+  exact ⟨h.status, h.values, h.error, h.raised, h.pause, h.warnings, h.log.starts, h.log.1, hc⟩
+
+/-- C09 — NO EXTRA INVOCATIONS (no hypothesis on `None` decisions): every function invocation of the
+cached run is an invocation of the uncached run, with the same arguments, in the same order — the list
+of cached invocations is a sublist. (On a hit the function is not called; the cache never makes a run
+call a function the uncached run does not call, nor with other arguments.) -/
+theorem cached_run_no_extra_calls (env : KeyEnv) (nested : Nested) (sem : Sem) (gi : Nat) (g : GraphD)
+    (values : AL Val) (cfg : RunCfg) (span : Span) (parent : Option Span) (cache : Lru (AL Val))
+    (hplain : PlainCacheable g) (hnames : (g.nodes.map (·.name)).Nodup)
+    (hok : CacheOK (GP g) env (execPlain sem gi))
+    (hinj : CallsInj env (GP g) gi (callsOf (runGraph nested sem .sync gi g values cfg span parent).log))
+    (hinv : CacheInv (GP g) env (execPlain sem gi) cache) :
+    (callsOf (runGraphCached env nested sem gi g values cfg span parent cache).1.log).Sublist
+      (callsOf (runGraph nested sem .sync gi g values cfg span parent).log) ∧
+    ∀ c ∈ callsOf (runGraphCached env nested sem gi g values cfg span parent cache).1.log,
+      c ∈ callsOf (runGraph nested sem .sync gi g values cfg span parent).log := by
+  have h := (runGraphCached_simB env (execPlain sem gi) nested sem gi g values cfg span parent cache
+    hnames hok (execIs_plain nested sem gi g hplain) hinv hinj).1.log.2
+  exact ⟨h, fun c hc => h.subset hc⟩
+
+/-- C09 — A SEQUENCE OF RUNS SHARING ONE CACHE, each with its own inputs: every run equals its uncached
+counterpart as in `cached_run_transparent` (`RunsSim`: pointwise `RunSim`, same length —
+`RunsSim.length`, `RunsSim.get`), and the final cache satisfies the invariant. Induction over the list:
+the cache a run leaves is what the next run starts from. -/
+theorem cached_runs_sequence_transparent (env : KeyEnv) (nested : Nested) (sem : Sem) (gi : Nat)
+    (g : GraphD) (cfg : RunCfg) (span : Span) (parent : Option Span) (vs : List (AL Val))
+    (cache : Lru (AL Val))
+    (hplain : PlainCacheable g) (hok : CacheOK (GP g) env (execPlain sem gi))
+    (hnn : NoNoneDec (GP g) (execPlain sem gi))
+    (hinj : ∀ v ∈ vs, CallsInj env (GP g) gi (callsOf (runGraph nested sem .sync gi g v cfg span parent).log))
+    (hinv : CacheInv (GP g) env (execPlain sem gi) cache) :
+    RunsSim (runsCached env nested sem gi g cfg span parent vs cache).1
+      (vs.map fun v => runGraph nested sem .sync gi g v cfg span parent) ∧
+    CacheInv (GP g) env (execPlain sem gi) (runsCached env nested sem gi g cfg span parent vs cache).2 :=
+  runsCached_sim env (execPlain sem gi) nested sem gi g cfg span parent hok
+    (execIs_plain nested sem gi g hplain) hnn vs cache hinv hinj
+
+/-- the same without the hypothesis on `None` decisions (`RunsSimB`: pointwise `RunSimB`, i.e. every
+field but the log equal, logs equal modulo invocations, cache markers and `RouteDecision` events, no
+extra invocations) -/
+theorem cached_runs_sequence_transparent_partial (env : KeyEnv) (nested : Nested) (sem : Sem) (gi : Nat)
+    (g : GraphD) (cfg : RunCfg) (span : Span) (parent : Option Span) (vs : List (AL Val))
+    (cache : Lru (AL Val))
+    (hplain : PlainCacheable g) (hnames : (g.nodes.map (·.name)).Nodup)
+    (hok : CacheOK (GP g) env (execPlain sem gi))
+    (hinj : ∀ v ∈ vs, CallsInj env (GP g) gi (callsOf (runGraph nested sem .sync gi g v cfg span parent).log))
+    (hinv : CacheInv (GP g) env (execPlain sem gi) cache) :
+    RunsSimB (runsCached env nested sem gi g cfg span parent vs cache).1
+      (vs.map fun v => runGraph nested sem .sync gi g v cfg span parent) ∧
+    CacheInv (GP g) env (execPlain sem gi) (runsCached env nested sem gi g cfg span parent vs cache).2 :=
+  runsCached_simB env (execPlain sem gi) nested sem gi g cfg span parent hnames hok
+    (execIs_plain nested sem gi g hplain) vs cache hinv hinj
+
+/-- ONE SUPERSTEP (the lemma the run theorems are built from, restated): from a cache satisfying the
+invariant, the cached superstep on ready nodes `rs` of `g` returns the state / error and partial state /
+pause of the uncached superstep (`StepSim`, logs `LogRel`) and a cache satisfying the invariant. -/
+theorem cached_step_transparent (env : KeyEnv) (nested : Nested) (sem : Sem) (gi : Nat) (g : GraphD)
+    (runSpan : Span) (k : Nat) (s : GState) (rs : List NodeD) (cache : Lru (AL Val))
+    (hrs : ∀ nd ∈ rs, nd ∈ g.nodes)
+    (hplain : PlainCacheable g) (hok : CacheOK (GP g) env (execPlain sem gi))
+    (hnn : NoNoneDec (GP g) (execPlain sem gi))
+    (hinj : CallsInj env (GP g) gi (callsOf (stepSync nested sem gi g runSpan k s rs s []).log))
+    (hinv : CacheInv (GP g) env (execPlain sem gi) cache) :
+    StepSim (stepSyncCached env nested sem gi g runSpan k s rs s [] cache).1
+      (stepSync nested sem gi g runSpan k s rs s []) ∧
+    CacheInv (GP g) env (execPlain sem gi) (stepSyncCached env nested sem gi g runSpan k s rs s [] cache).2 :=
+  stepSyncCached_sim (GP g) env (execPlain sem gi) nested sem gi g runSpan k s hok
+    (execIs_plain nested sem gi g hplain) hnn rs
+    (fun nd h i hi _ => ⟨hrs nd h, collectInputs_keys' g s nd nd.inputs i hi⟩) s [] [] cache hinv
+    (LogRel.refl _) hinj
+
+/-! ### non-vacuity
+
+`progRC`: `f(x) → y = x + 1` (cacheable), `gate(y)`: `small` if `y < 5` else `END` (a cacheable `ifelse`
+gate), `small(y) → s` (not cacheable); key environment `envRC` (collision free at the four keys of the
+runs on `x = 1` and `x = 7`); all standing hypotheses are proved in `HG/Lemmas/RunCached.lean`
+(`plainCacheable_RC`, `cacheOK_RC`, `noNoneDec_RC`, `callsInj_RC1`, `callsInj_RC7`, `gRC_names`). -/
+
+/-- run twice on `x = 1`, from the empty cache of capacity 8. First run: `f`, `gate`, `small` are
+called, two entries are stored. Second run: `f` and `gate` are served from the cache with ZERO calls
+(only the non-cacheable `small` is called), two `CacheHit` events; same status, values and routing
+decision (`gate → small`, restored from the cache) as the uncached run. -/
+example :
+    let r1 := runCached envRC bodySem progRC 0 [("x", .int 1)] {} (Lru.empty (some 8))
+    let r2 := runCached envRC bodySem progRC 0 [("x", .int 1)] {} r1.2
+    let u := run bodySem .sync progRC 0 [("x", .int 1)] {}
+    (callsOf r1.1.log).map (·.1) = ["0:f", "0:gate", "0:small"] ∧
+    r1.2.data.map (·.1) = ["kf1", "kg2"] ∧
+    callsOf r2.1.log = [("0:small", [("y", .int 2)])] ∧
+    (r2.1.log.filterMap fun l => match l with
+      | .ev e => if e.kind = "CacheHit" then some e.name else none
+      | _ => none) = ["f", "gate"] ∧
+    r2.1.status = .completed ∧ u.status = .completed ∧ r2.1.values = u.values ∧
+    r2.1.values = [("y", .int 2), ("s", Val.mkTup [.str "small", .int 2])] ∧
+    routingOf r2.1.log = [("gate", "small")] ∧ routingOf u.log = [("gate", "small")] := by decide
+
+/-- `cached_run_transparent` applies to the second run of that scenario: its hypotheses are jointly
+satisfiable, from a NON-EMPTY cache (the one the first run left) -/
+example :
+    let r1 := runCached envRC bodySem progRC 0 [("x", .int 1)] {} (Lru.empty (some 8))
+    let r2 := runCached envRC bodySem progRC 0 [("x", .int 1)] {} r1.2
+    r2.1.values = (runRC 1).values ∧ routingOf r2.1.log = routingOf (runRC 1).log ∧
+    CacheInv (GP gRC) envRC (execPlain bodySem 0) r2.2 := by
+  intro r1 r2
+  have h1 := cached_run_transparent envRC nestedRC bodySem 0 gRC [("x", .int 1)] {} ["r"] .none
+    (Lru.empty (some 8)) plainCacheable_RC cacheOK_RC noNoneDec_RC callsInj_RC1 (cacheInv_empty _ _ _ _)
+  have h2 := cached_run_transparent envRC nestedRC bodySem 0 gRC [("x", .int 1)] {} ["r"] .none
+    r1.2 plainCacheable_RC cacheOK_RC noNoneDec_RC callsInj_RC1 h1.2.2.2.2.2.2.2.2
+  exact ⟨h2.2.1, h2.2.2.2.2.2.2.1, h2.2.2.2.2.2.2.2.2⟩
+
+/-- EVICTION: capacity 1. `gate`'s entry evicts `f`'s, so in the second run `f` misses (called again),
+its `set` evicts `gate`'s entry, `gate` misses too: all three functions run again — and the theorem
+applies all the same (any capacity) -/
+example :
+    let r1 := runCached envRC bodySem progRC 0 [("x", .int 1)] {} (Lru.empty (some 1))
+    let r2 := runCached envRC bodySem progRC 0 [("x", .int 1)] {} r1.2
+    r1.2.data.map (·.1) = ["kg2"] ∧
+    (callsOf r2.1.log).map (·.1) = ["0:f", "0:gate", "0:small"] ∧ r2.1.values = (runRC 1).values := by
+  intro r1 r2
+  have h1 := cached_run_transparent envRC nestedRC bodySem 0 gRC [("x", .int 1)] {} ["r"] .none
+    (Lru.empty (some 1)) plainCacheable_RC cacheOK_RC noNoneDec_RC callsInj_RC1 (cacheInv_empty _ _ _ _)
+  have h2 := cached_run_transparent envRC nestedRC bodySem 0 gRC [("x", .int 1)] {} ["r"] .none
+    r1.2 plainCacheable_RC cacheOK_RC noNoneDec_RC callsInj_RC1 h1.2.2.2.2.2.2.2.2
+  exact ⟨by decide, by decide, h2.2.1⟩
+
+/-- capacity 0 (nothing is ever retained): every run is a run of misses, still transparent -/
+example :
+    (runCached envRC bodySem progRC 0 [("x", .int 1)] {} (Lru.empty (some 0))).1.values = (runRC 1).values ∧
+    (runCached envRC bodySem progRC 0 [("x", .int 1)] {} (Lru.empty (some 0))).2.data = [] :=
+  ⟨(cached_run_transparent envRC nestedRC bodySem 0 gRC [("x", .int 1)] {} ["r"] .none
+    (Lru.empty (some 0)) plainCacheable_RC cacheOK_RC noNoneDec_RC callsInj_RC1 (cacheInv_empty _ _ _ _)).2.1,
+   by decide⟩
+
+/-- `cached_run_no_extra_calls` on the second run: its single invocation is one of the three of the
+uncached run -/
+example :
+    let r1 := runCached envRC bodySem progRC 0 [("x", .int 1)] {} (Lru.empty (some 8))
+    let r2 := runCached envRC bodySem progRC 0 [("x", .int 1)] {} r1.2
+    (callsOf r2.1.log).Sublist (callsOf (runRC 1).log) ∧
+    (callsOf r2.1.log).length = 1 ∧ (callsOf (runRC 1).log).length = 3 := by
+  intro r1 r2
+  have h1 := cached_run_transparent envRC nestedRC bodySem 0 gRC [("x", .int 1)] {} ["r"] .none
+    (Lru.empty (some 8)) plainCacheable_RC cacheOK_RC noNoneDec_RC callsInj_RC1 (cacheInv_empty _ _ _ _)
+  exact ⟨(cached_run_no_extra_calls envRC nestedRC bodySem 0 gRC [("x", .int 1)] {} ["r"] .none r1.2
+    plainCacheable_RC gRC_names cacheOK_RC callsInj_RC1 h1.2.2.2.2.2.2.2.2).1, by decide, by decide⟩
+
+/-- A SEQUENCE of four runs sharing one cache of capacity 4, inputs `x = 1, 7, 1, 7` (`x = 7`: `f(7) = 8`,
+the gate decides `END`): runs 3 and 4 are served from the cache — `f` and `gate` are not called at all,
+run 4 makes zero calls — and each run's values are those of its uncached counterpart -/
+example :
+    let rs := runsCached envRC nestedRC bodySem 0 gRC {} ["r"] .none
+      [[("x", .int 1)], [("x", .int 7)], [("x", .int 1)], [("x", .int 7)]] (Lru.empty (some 4))
+    rs.1.map (fun r => (callsOf r.log).map (·.1)) =
+      [["0:f", "0:gate", "0:small"], ["0:f", "0:gate"], ["0:small"], []] ∧
+    rs.1.map (·.values) = [(runRC 1).values, (runRC 7).values, (runRC 1).values, (runRC 7).values] ∧
+    rs.1.map (fun r => routingOf r.log) =
+      [[("gate", "small")], [("gate", "END")], [("gate", "small")], [("gate", "END")]] := by decide
+
+/-- `cached_runs_sequence_transparent` applies to that sequence, and with capacity 3 as well, where the
+LRU thrashes (every run evicts what the next one needs: no run is served from the cache) -/
+example (ms : Option Nat) :
+    let vs : List (AL Val) := [[("x", .int 1)], [("x", .int 7)], [("x", .int 1)], [("x", .int 7)]]
+    RunsSim (runsCached envRC nestedRC bodySem 0 gRC {} ["r"] .none vs (Lru.empty ms)).1
+      [runRC 1, runRC 7, runRC 1, runRC 7] ∧
+    CacheInv (GP gRC) envRC (execPlain bodySem 0)
+      (runsCached envRC nestedRC bodySem 0 gRC {} ["r"] .none vs (Lru.empty ms)).2 := by
+  intro vs
+  refine cached_runs_sequence_transparent envRC nestedRC bodySem 0 gRC {} ["r"] .none vs (Lru.empty ms)
+    plainCacheable_RC cacheOK_RC noNoneDec_RC ?_ (cacheInv_empty _ _ _ _)
+  intro v hv
+  simp only [vs, List.mem_cons, List.not_mem_nil, or_false] at hv
+  rcases hv with rfl | rfl | rfl | rfl
+  · exact callsInj_RC1
+  · exact callsInj_RC7
+  · exact callsInj_RC1
+  · exact callsInj_RC7
+
+example :
+    (runsCached envRC nestedRC bodySem 0 gRC {} ["r"] .none
+      [[("x", .int 1)], [("x", .int 7)], [("x", .int 1)], [("x", .int 7)]] (Lru.empty (some 3))).1.map
+      (fun r => (callsOf r.log).map (·.1)) =
+    [["0:f", "0:gate", "0:small"], ["0:f", "0:gate"], ["0:f", "0:gate", "0:small"], ["0:f", "0:gate"]] := by
+  decide
+
+/-- WITNESS (why `NoNoneDec` is assumed in `cached_run_transparent`). `progNN`: `r(x)`, a cacheable route
+gate without fallback whose function returns `None`, with target `t`. Every other hypothesis holds
+(`cacheOK_NN`, `callsInj_NN`, `plainCacheable_NN`, `gNN_names`), `NoNoneDec` fails, the second (cached)
+run is served from the cache and announces NO routing decision where the uncached run announces
+`RouteDecision(r, None)`. Everything `cached_run_transparent_partial` promises does hold: same status,
+same values, same nodes started, logs equal modulo invocations, cache markers and `RouteDecision`. -/
+theorem none_decision_run_witness :
+    let r1 := runCached envNN bodySem progNN 0 [("x", .int 1)] {} (Lru.empty none)
+    let r2 := runCached envNN bodySem progNN 0 [("x", .int 1)] {} r1.2
+    ¬ NoNoneDec (GP gNN) (execPlain bodySem 0) ∧
+    callsOf r2.1.log = [] ∧
+    routingOf r2.1.log = [] ∧ routingOf runNN.log = [("r", "None")] ∧
+    r2.1.status = runNN.status ∧ r2.1.values = runNN.values ∧ startsOf r2.1.log = startsOf runNN.log ∧
+    eraseRoute (eraseCache r2.1.log) = eraseRoute (eraseCache runNN.log) := by
+  intro r1 r2
+  have h1 := cached_run_transparent_partial envNN nestedNN bodySem 0 gNN [("x", .int 1)] {} ["r"] .none
+    (Lru.empty none) plainCacheable_NN gNN_names cacheOK_NN callsInj_NN (cacheInv_empty _ _ _ _)
+  have h2 := cached_run_transparent_partial envNN nestedNN bodySem 0 gNN [("x", .int 1)] {} ["r"] .none
+    r1.2 plainCacheable_NN gNN_names cacheOK_NN callsInj_NN h1.2.2.2.2.2.2.2.2
+  exact ⟨not_noNoneDec_NN, by decide, by decide, by decide, h2.1, h2.2.1, h2.2.2.2.2.2.2.1,
+    h2.2.2.2.2.2.2.2.1⟩
 
 end HG.C09
